@@ -3670,7 +3670,7 @@ func (b *SystemBackend) handleWrappingRewrap(ctx context.Context, req *logical.R
 		if err != nil {
 			return nil, fmt.Errorf("error decrementing wrapping token's use-count: %w", err)
 		}
-		defer b.Core.tokenStore.revokeOrphan(ctx, token)
+		defer b.Core.tokenStore.revokeOrphan(ctx, te.ID)
 	}
 
 	// Fetch the original TTL
